@@ -82,8 +82,12 @@ Fixpoint run_phases (m : mst) (ps : list phase) : mst :=
   | [] => m
   | (calls, script) :: rest =>
       let m1 := fold_left (fun (m : mst) (c : nat * bool) =>
-                  try_step (try_step m (AStart (fst c) (tag_of (fst c)) (fst c)))
-                           (if snd c then ASendFail (fst c) else ASendOk (fst c))) calls m in
+                  let m0 := try_step m (AStart (fst c) (tag_of (fst c)) (fst c)) in
+                  if snd c then try_step m0 (ASendFail (fst c))
+                  else match step true true true recv_error_marks_dead m0 (ASendOk (fst c)) with
+                       | Some m' => m'
+                       | None => try_step m0 (ASendFail (fst c))     (* the connection is dead: the call fails without being sent *)
+                       end) calls m in
       run_phases (drive (4 * (length (thr m) + length script) + 8) m1 script) rest
   end.
 
